@@ -405,7 +405,7 @@ Lemma an_bm_prefix_inv t str ci :
   bm_prefix t = Some (str, ci) ->
   exists s0 k, get_prefix_walk t = WDone (Some (s0, ci)) /\ str = firstn k s0.
 Proof.
-  unfold bm_prefix. remember (Z.to_nat MAX_PREFIX_SIZE) as k eqn:Ek. clear Ek.
+  unfold bm_prefix, bm_prefix_dir. cbv zeta. remember (Z.to_nat MAX_PREFIX_SIZE) as k eqn:Ek. clear Ek.
   destruct (get_prefix_walk t) as [[[s0 ci0]|]|]; try (intros H; discriminate H).
   destruct s0 as [|c0 s0]; [intros H; discriminate H|].
   destruct (existsb (fun c => 65535 <? c) (firstn k (c0 :: s0))); [intros H; discriminate H|].
